@@ -27,13 +27,7 @@ import (
 	"encoding/hex"
 	"encoding/xml"
 	"fmt"
-	"go/ast"
-	"go/parser"
-	"go/token"
-	"go/types"
 	"net"
-	"path/filepath"
-	"sort"
 	"strconv"
 	"strings"
 	"unicode/utf8"
@@ -575,8 +569,31 @@ func (c *ctx) str(s string, class string) {
 		c.fail("total", "parse", []string{r.Prop + " " + line}, "Parse(%q) panicked: %s", s, p)
 		return
 	}
+	// MustParse: the same function with the error turned into a panic that names the input and
+	// the error (round D: every exported constructor is an entry point); its observation is a
+	// second answer to the same `parse` line, so it is tied to the model's `parse` as well
+	var mj jid.JID
+	mp := guard(func() { mj = jid.MustParse(s) })
+	mobs := "ok " + enc(mj)
+	if mp != "" {
+		mobs = "PANIC"
+		if err != nil && strings.HasPrefix(mp, "jid: Parse(") && strings.HasSuffix(mp, err.Error()) {
+			mobs = "err"
+		}
+	}
+	r.Line(line, mobs)
+	if mobs != obsRes(j, err, "") {
+		c.fail("build-agree", "mustparse", []string{r.Prop + " " + line}, "Parse(%q) = %s (%v), MustParse: %s %s", s, obsRes(j, err, ""), err, mobs, mp)
+	}
 	if err == nil {
 		c.canonical(j, []string{r.Prop + " " + line}, fmt.Sprintf("Parse(%q)", s))
+		if n := j.Network(); n != "xmpp" {
+			c.fail("accessors-agree", "network", []string{r.Prop + " " + line}, "Network() = %q", n)
+		}
+		var a net.Addr = j
+		if a.String() != j.String() {
+			c.fail("accessors-agree", "net-addr", []string{r.Prop + " " + line}, "as net.Addr: %q, String() %q", a.String(), j.String())
+		}
 	}
 }
 
@@ -1003,135 +1020,14 @@ func Run(r *common.Run) error {
 
 // ---- facts -----------------------------------------------------------------------------------------
 
-// Facts regenerates lean/XmppModel/Generated/C11.lean from jid/jid.go: the
-// forbidden localpart characters and the length limits of the three parts.
+// Facts regenerates lean/XmppModel/Generated/C11.lean.  Every fact is a probe of the real
+// package through its exported API (probe.go, alias.go); nothing is read from the source text.
 func Facts(repo string) (string, error) {
-	fset := token.NewFileSet()
-	f, err := parser.ParseFile(fset, filepath.Join(repo, "jid", "jid.go"), nil, 0)
-	if err != nil {
-		return "", err
-	}
-	_ = f
 	var sb strings.Builder
-	sb.WriteString("-- GENERATED by `harness facts C11` from jid/jid.go; do not edit.\n")
+	sb.WriteString("-- GENERATED by `harness facts C11` by running the real package jid; do not edit.\n")
 	sb.WriteString("namespace XmppModel.Generated.C11\n\n")
 	probeFacts(&sb)
-	// every function of jid.go / unsafe.go that writes through append, copy or a
-	// transformer's Append does so into a slice it made itself (syntactic, conservative)
-	type fw struct {
-		name  string
-		fresh bool
-	}
-	var fws []fw
-	for _, file := range []string{"jid.go", "unsafe.go"} {
-		ff, err := parser.ParseFile(fset, filepath.Join(repo, "jid", file), nil, 0)
-		if err != nil {
-			return "", err
-		}
-		for _, d := range ff.Decls {
-			fd, ok := d.(*ast.FuncDecl)
-			if !ok || fd.Body == nil {
-				continue
-			}
-			if n, fresh := writesOnFresh(fd); n > 0 {
-				fws = append(fws, fw{fd.Name.Name, fresh})
-			}
-		}
-	}
-	sort.Slice(fws, func(a, b int) bool { return fws[a].name < fws[b].name })
-	var el []string
-	for _, w := range fws {
-		el = append(el, fmt.Sprintf("(%s, %v)", strconv.Quote(w.name), w.fresh))
-	}
-	fmt.Fprintf(&sb, "\n/-- for every function of jid.go / unsafe.go that calls append, copy or a transformer's\nAppend: is every destination a local slice that the function only ever assigns from make(…),\nfrom a full slice expression x[a:b:b], or from append/Append on itself? -/\ndef writesOnFresh : Option (List (String × Bool)) := some [%s]\n", strings.Join(el, ", "))
+	aliasFacts(&sb)
 	sb.WriteString("\nend XmppModel.Generated.C11\n")
 	return sb.String(), nil
-}
-
-// writesOnFresh counts the write sites (append / copy / x.Append with a
-// destination argument) of a function and reports whether every destination is
-// a local identifier all of whose assignments create fresh storage or extend
-// the identifier itself.
-func writesOnFresh(fd *ast.FuncDecl) (sites int, fresh bool) {
-	dest := func(call *ast.CallExpr) (ast.Expr, bool) {
-		switch f := call.Fun.(type) {
-		case *ast.Ident:
-			if (f.Name == "append" || f.Name == "copy") && len(call.Args) >= 1 {
-				return call.Args[0], true
-			}
-		case *ast.SelectorExpr:
-			if f.Sel.Name == "Append" && len(call.Args) >= 2 {
-				return call.Args[0], true
-			}
-		}
-		return nil, false
-	}
-	// classification of the right-hand sides assigned to each local identifier
-	okAssign := map[string]bool{}
-	seenAssign := map[string]bool{}
-	classify := func(name string, rhs ast.Expr) {
-		good := false
-		switch e := rhs.(type) {
-		case *ast.CallExpr:
-			if id, ok := e.Fun.(*ast.Ident); ok && id.Name == "make" {
-				good = true
-			} else if d, ok := dest(e); ok {
-				if id, ok := d.(*ast.Ident); ok && id.Name == name {
-					if f, ok := e.Fun.(*ast.Ident); !ok || f.Name != "copy" {
-						good = true // x = append(x, …) / x, err = t.Append(x, …)
-					}
-				}
-			}
-		case *ast.SliceExpr:
-			// x[a:b:b]: no spare capacity, so a later append cannot write into x's array
-			if e.Slice3 && e.High != nil && e.Max != nil && types.ExprString(e.High) == types.ExprString(e.Max) {
-				good = true
-			}
-		}
-		if !seenAssign[name] {
-			seenAssign[name] = true
-			okAssign[name] = good
-		} else {
-			okAssign[name] = okAssign[name] && good
-		}
-	}
-	ast.Inspect(fd.Body, func(n ast.Node) bool {
-		as, ok := n.(*ast.AssignStmt)
-		if !ok {
-			return true
-		}
-		for k, lhs := range as.Lhs {
-			id, ok := lhs.(*ast.Ident)
-			if !ok || id.Name == "_" {
-				continue
-			}
-			switch {
-			case len(as.Rhs) == len(as.Lhs):
-				classify(id.Name, as.Rhs[k])
-			case len(as.Rhs) == 1 && k == 0:
-				classify(id.Name, as.Rhs[0])
-			case len(as.Rhs) == 1:
-				// other results of a multi-value call (err, …): not slices we track
-			}
-		}
-		return true
-	})
-	fresh = true
-	ast.Inspect(fd.Body, func(n ast.Node) bool {
-		call, ok := n.(*ast.CallExpr)
-		if !ok {
-			return true
-		}
-		d, ok := dest(call)
-		if !ok {
-			return true
-		}
-		sites++
-		id, ok := d.(*ast.Ident)
-		if !ok || !seenAssign[id.Name] || !okAssign[id.Name] {
-			fresh = false
-		}
-		return true
-	})
-	return sites, fresh
 }
